@@ -104,6 +104,27 @@ func TestVerifC16(t *testing.T) {
 			}
 		}
 	}
+	// corpus files whose normalised text CONTAINS another corpus file's normalised text
+	// (Xnet = MIT + a paragraph, NPL-1.1 = amendments + MPL-1.1, ...): the shorter
+	// one must not answer for the longer one. Asked several times, because which
+	// known value is looked at first depends on map iteration order.
+	{
+		norms := map[string]string{}
+		for _, f := range names {
+			raw, _ := ReadLicenseFile(f)
+			norms[f] = vNormLicense(string(raw))
+		}
+		for _, f := range names {
+			for _, g := range names {
+				if f != g && len(norms[g]) > 200 && len(norms[f]) > len(norms[g]) && strings.Contains(norms[f], norms[g]) {
+					for k := 0; k < e.pick(4, 12); k++ {
+						cases = append(cases, cdesc{f, "as-is"})
+					}
+					break
+				}
+			}
+		}
+	}
 	nid := len(cases)
 	// threshold bound of MultipleMatch, on classifiers of several thresholds
 	nthr := e.pick(12, 120)
